@@ -501,9 +501,15 @@ def check_C02(ctx, unit):
                         if rel is None:
                             continue
                         a_, op_, b_ = rel
-                        if op_ in ("<=", "<", "==") and std_unwrap(a_).kind == "DeclRefExpr" and std_unwrap(a_).d["d"] == ns_did and \
-                                _usable_size_shape(fi, b_) in ("bucket_to_size(<frame>.index)", "<frame>.length"):
-                            okp = True
+                        if op_ in ("<=", "<", "==") and std_unwrap(a_).kind == "DeclRefExpr" and std_unwrap(a_).d["d"] == ns_did:
+                            shapes = {_usable_size_shape(fi, b_)}
+                            bb = std_unwrap(b_)
+                            if bb.kind == "DeclRefExpr" and bb.get("local") and RA._reassigned(fi, bb.d["d"]):
+                                # a local that is assigned per kind of block: the definitions that reach the comparison
+                                defs_ = flow.reaching_defs(fi, bb.d["d"], cond.strip().id if cond.strip().id in fi.positions() else r.id)
+                                shapes = {(_usable_size_shape(fi, d_) if d_ is not None else "<undefined>") for d_ in defs_} or {"<undefined>"}
+                            if shapes <= {"bucket_to_size(<frame>.index)", "<frame>.length"}:
+                                okp = True
                     if not okp:
                         problems.append("returns the old pointer at %s without new_size <= usable size known on that path" % r.loc)
             if arms < 2:
@@ -801,38 +807,39 @@ def check_C03(ctx, unit):
                     raise AnalysisBroken("anchor vanished: Policy::map call in %s (found %d)" % (f.qn, len(maps)))
                 m = maps[0]
                 problems = []
-                # local that receives the result
-                par = f.parent(m)
-                while par is not None and par.kind in ("ImplicitCastExpr", "ParenExpr"):
-                    par = f.parent(par)
+                # place that receives the result: a local, or a field of a local record (possibly one that a virtually
+                # inlined helper returns by value: copies of local records are followed)
+                from .rules_slab import bound_var, place_of, struct_aliases
+                alias = struct_aliases(f)
+                bv = bound_var(f, m)
                 basev = None
-                if par is not None and par.kind == "BinaryOperator" and par.op == "=":
-                    l = std_unwrap(par.children[0])
-                    if l.kind == "DeclRefExpr":
-                        basev = l.d["d"]
+                if bv is not None and bv[0] == "var":
+                    basev = bv[1] if isinstance(bv[1], tuple) else (bv[1], None)
                 if basev is None:
                     problems.append("result of map is not stored in a local")
                 # frame field stores
                 stores = {}
                 for n in f.events():
                     w = write_of(n)
-                    if w and w[0] and len(w[0]) == 2 and w[0][1] in ("sb_base", "sb_reservation") and w[1] is not None:
+                    if w and w[0] and len(w[0]) == 2 and w[0][1] in ("sb_base", "sb_reservation") and w[1] is not None \
+                            and place_of(n.children[0] if n.kind == "BinaryOperator" else n) is None:
                         stores[w[0][1]] = std_unwrap(w[1])
                 if set(stores) != {"sb_base", "sb_reservation"}:
                     problems.append("frame fields written: %s" % sorted(stores))
                 else:
-                    if not (stores["sb_base"].kind == "DeclRefExpr" and stores["sb_base"].d["d"] == basev):
+                    if basev is not None and place_of(stores["sb_base"], alias) != basev:
                         problems.append("sb_base stores %s, not the result of map" % canon(stores["sb_base"]))
                     rv = stores["sb_reservation"]
-                    # value of the reservation local: its (single reaching) assignment
+                    rplace = place_of(rv, alias)
+                    # value of the reservation place: its (single reaching) assignment
                     rdefs = []
-                    if rv.kind == "DeclRefExpr":
+                    if rplace is not None:
                         for x in f.events():
-                            if x.kind == "BinaryOperator" and x.op == "=" and std_unwrap(x.children[0]).kind == "DeclRefExpr" \
-                                    and std_unwrap(x.children[0]).d["d"] == rv.d["d"]:
+                            if x.kind == "BinaryOperator" and x.op == "=" and place_of(x.children[0], alias) == rplace:
                                 rdefs.append(_strip_ids(canon(x.children[1])))
                     arg = _strip_ids(canon(m.args[0]))
-                    if not (arg == _strip_ids(canon(rv)) or (len(rdefs) == 1 and arg == rdefs[0])):
+                    same_place = rplace is not None and place_of(m.args[0], alias) == rplace
+                    if not (same_place or arg == _strip_ids(canon(rv)) or (len(rdefs) == 1 and arg == rdefs[0])):
                         problems.append("map is asked for %s but the frame records %s (= %s)" % (arg, _strip_ids(canon(rv)), rdefs))
                 ctx.inst("E.map-provenance", "%s::%s%s" % (POOL, name, tag), not problems, m.loc,
                          "; ".join(problems) if problems else "map(len) with len recorded in sb_reservation, result recorded in sb_base", f)
